@@ -40,6 +40,8 @@ LINES = [
     ["Hello there."], ["two", "lines"], ["A" * 32], ["B" * 33], ["x" * 40 + " tail"], ["word " * 9 + "end"],
     ["señor está aquí: qué?"], ["ça va 3 ÷ 4 Ñandú"], ["café ó único"], ["one", "two", "three", "four"],
     ["It's 100% \"fine\" (really) - yes/no; a+b=c # & @ <tag>"], ["  padded   inside  "],
+    # text that merely LOOKS like character references: transmitted character by character
+    ["Tom &amp; Jerry &lt;3 &#49; AT&T", "x&GTa y&#7z &quot;q&quot; &nbsp;"],
     # a line longer than a row holding a long (but not over-long) word: rows break at spaces only
     ["the counterrevolutionaries' plan failed"], ["an incomprehensibilities-laden memo arrived", "uncharacteristically early today"],
     # a hyphenated word where the row is full: the hyphen is not a place to break
@@ -190,6 +192,9 @@ def caption_sets(thorough):
                 continue
     for i in range(n):
         yield "single cue", [(5 * S, 7 * S, LINES[i])]
+    # the same text said again: right after the first time, after a pause, and once more - three captions, three loads
+    yield "repeated text", [(5 * S, 7 * S, ["Same words."]), (7 * S, 9 * S, ["Same words."]), (12 * S, 13 * S, ["Same words."])]
+    yield "repeated text", [(5 * S, 7 * S, ["two", "lines"]), (6 * S + 900000, 9 * S, ["two", "lines"])]
 
 
 def words_of(lines):
